@@ -345,3 +345,293 @@ pub fn schedule_p13_b111() {
 pub fn schedule_p13_b10() {
     schedule_matches_group_law::<A13, 2>([(0, 1), (1, 0)])
 }
+
+// =============================================================================================
+// The window loop of the REAL generic `msm_serial` (notes/K4.md): window-size choice by the number of bases, trimming of
+// the scalars to the significant bytes of the longest one, `number_of_windows`, the `for _ in 0..c` doublings, the
+// Booth digit -> bucket index / sign mapping, bucket accumulation, summation by parts. Instantiated at toy groups
+// (src/toy_msm.rs) whose SCALAR field needs one, two or three full bytes, so that short scalars with the top bit of
+// their top byte set exist (the carry window of the Booth recoding is then the only place where 2^(8b) * base enters).
+// Specification: with acc = identity on entry (what `msm_parallel`, the only caller, passes; `msm_serial` doubles
+// `acc` c * number_of_windows times, so it is NOT additive in a non-identity `acc`),
+//     acc_out == sum_i scalar_i * base_i,       scalar_i * base_i by plain MSB-first double-and-add (`ref_mul`).
+use crate::toy::msm::{Dlog, Elem, Lin, ToyScalar, E139, E139_MULTIPLES, F163, F16777213, F65521, GA, GJ};
+use group::Group;
+use midnight_curves::msm::msm_serial;
+
+/// k * p, plain double-and-add over the bits of the INTEGER k (written here, independent of the environment's `Mul`)
+fn ref_mul<E: Elem>(k: u32, p: E, nbits: u32) -> E {
+    let mut r = E::id();
+    let mut i = nbits;
+    while i > 0 {
+        i -= 1;
+        r = r.gdbl();
+        if (k >> i) & 1 == 1 {
+            r = r.gadd(p);
+        }
+    }
+    r
+}
+
+fn msm_serial_is_sum<E: Elem, const N: usize>(bases: [GA<E>; N]) {
+    let q = <E::Scalar as ToyScalar>::Q;
+    let nb = <E::Scalar as ToyScalar>::NB;
+    let mut ks = [0u32; N];
+    let mut sc = [<E::Scalar as ff::Field>::ZERO; N];
+    let mut i = 0;
+    while i < N {
+        let v: u32 = any();
+        assume(v < q);
+        ks[i] = v;
+        sc[i] = <E::Scalar as ToyScalar>::from_u32(v);
+        i += 1;
+    }
+    let mut acc = GJ::<E>::identity();
+    msm_serial::<GA<E>>(&sc, &bases, &mut acc);
+    let mut want = E::id();
+    let mut i = 0;
+    while i < N {
+        want = want.gadd(ref_mul(ks[i], bases[i].0, 8 * nb as u32));
+        i += 1;
+    }
+    let ok = acc.0.same(&want);
+    #[cfg(not(kani))]
+    level2::same_scalars_on_g1(&ks, ok);
+    assert!(ok, "msm_serial: result differs from sum_i scalar_i * base_i");
+    // b = significant bytes of the longest scalar (what msm_serial trims to), top = bit 8b-1 of some scalar is set
+    let mut or = 0u32;
+    let mut zero = false;
+    let mut i = 0;
+    while i < N {
+        or |= ks[i];
+        zero |= ks[i] == 0;
+        i += 1;
+    }
+    let b: u32 = if or == 0 {
+        0
+    } else if or < 0x100 {
+        1
+    } else if or < 0x1_0000 {
+        2
+    } else {
+        3
+    };
+    let top = b > 0 && (or >> (8 * b - 1)) & 1 == 1;
+    vcover!(b == 1 && top, "one-byte scalars, some scalar >= 128");
+    vcover!(b == 1 && !top, "one-byte scalars, all scalars < 128");
+    vcover!(b as usize == nb && top, "full-length scalars with the top bit of the top byte set");
+    vcover!(b as usize == nb && !top, "full-length scalars, top bit clear");
+    vcover!(zero && (N == 1 || or != 0), "a zero scalar (beside a non-zero one if there are several)");
+    vcover!(or == 0, "all scalars zero: early return");
+    vcover!(ks[0] == q - 1, "the scalar -1");
+}
+
+/// any point of y^2 = x^3 + 2 over F_139, the identity included
+fn any_e139() -> GA<E139> {
+    let finite: bool = any();
+    let (x, y): (u8, u8) = (any(), any());
+    if !finite {
+        return GA::new(E139::id());
+    }
+    assume(x < 139 && y < 139);
+    let p = E139::on_curve(crate::toy::msm::F139(x), crate::toy::msm::F139(y));
+    assume(p.is_some());
+    GA::new(p.unwrap())
+}
+
+/// ENVIRONMENT validation: the affine law of `E139` is the group Z_163. For all i, j: (iG) + (jG) = ((i+j) mod 163) G,
+/// -(iG) = (-i)G, with iG from the independently computed table; every point of the curve is in the table (so the
+/// law is total and closed on all 163 points, associative and commutative because addition of indices is).
+#[cfg_attr(kani, kani::proof)]
+#[cfg_attr(kani, kani::unwind(165))]
+pub fn toy_e139_is_a_group_of_order_163() {
+    let tab = |k: usize| -> E139 {
+        if k == 0 {
+            E139::id()
+        } else {
+            E139::pt(E139_MULTIPLES[k].0, E139_MULTIPLES[k].1)
+        }
+    };
+    let (i, j): (usize, usize) = (any(), any());
+    assume(i < 163 && j < 163);
+    let (p, q) = (tab(i), tab(j));
+    assert!(p.gadd(q).same(&tab((i + j) % 163)), "toy curve: (iG) + (jG) != (i+j)G");
+    assert!(p.gneg().same(&tab((163 - i) % 163)), "toy curve: -(iG) != (-i)G");
+    assert!(p.gdbl().same(&tab((2 * i) % 163)), "toy curve: 2(iG) != (2i)G");
+    let a = any_e139().0;
+    let mut found = false;
+    let mut k = 0;
+    while k < 163 {
+        found |= a.same(&tab(k));
+        k += 1;
+    }
+    assert!(found, "toy curve: a point of the curve is not a multiple of G");
+    vcover!(i == j && i != 0, "doubling");
+    vcover!(i != 0 && i + j == 163, "P + (-P)");
+    vcover!(i != j && i != 0 && j != 0 && i + j != 163, "chord");
+    vcover!(i == 0 && j != 0, "identity + P");
+    vcover!(!a.is_id());
+}
+
+/// the real curve, every point (identity, equal and opposite points included), every scalar of F_163
+#[cfg_attr(kani, kani::proof)]
+#[cfg_attr(kani, kani::unwind(11))]
+pub fn msm_serial_e139_n1() {
+    let bases = [any_e139()];
+    vcover!(bases[0].0.is_id(), "the base is the identity");
+    msm_serial_is_sum::<E139, 1>(bases)
+}
+#[cfg_attr(kani, kani::proof)]
+#[cfg_attr(kani, kani::unwind(11))]
+pub fn msm_serial_e139_n2() {
+    let bases = [any_e139(), any_e139()];
+    vcover!(bases[0].0.same(&bases[1].0) && !bases[0].0.is_id(), "repeated base");
+    vcover!(bases[0].0.same(&bases[1].0.gneg()) && !bases[0].0.is_id(), "opposite bases");
+    vcover!(bases[1].0.is_id() && !bases[0].0.is_id(), "an identity base");
+    msm_serial_is_sum::<E139, 2>(bases)
+}
+
+fn any_dlog<S: ToyScalar>() -> GA<Dlog<S>> {
+    let k: u32 = any();
+    assume(k < S::Q);
+    GA::new(Dlog(k, core::marker::PhantomData))
+}
+/// (Z_163, +): every element as a base (identity, repeated and opposite bases included), every scalar
+#[cfg_attr(kani, kani::proof)]
+#[cfg_attr(kani, kani::unwind(11))]
+pub fn msm_serial_dlog163_n1() {
+    let bases = [any_dlog::<F163>()];
+    vcover!(bases[0].0.is_id(), "the base is the identity");
+    msm_serial_is_sum::<Dlog<F163>, 1>(bases)
+}
+#[cfg_attr(kani, kani::proof)]
+#[cfg_attr(kani, kani::unwind(11))]
+pub fn msm_serial_dlog163_n2() {
+    let bases = [any_dlog::<F163>(), any_dlog::<F163>()];
+    vcover!(bases[0].0 .0 == bases[1].0 .0 && bases[0].0 .0 != 0, "repeated base");
+    vcover!(bases[0].0 .0 + bases[1].0 .0 == 163, "opposite bases");
+    vcover!(bases[1].0 .0 == 0 && bases[0].0 .0 != 0, "an identity base");
+    msm_serial_is_sum::<Dlog<F163>, 2>(bases)
+}
+#[cfg_attr(kani, kani::proof)]
+#[cfg_attr(kani, kani::unwind(11))]
+pub fn msm_serial_dlog163_n3() {
+    let bases = [any_dlog::<F163>(), any_dlog::<F163>(), any_dlog::<F163>()];
+    vcover!(bases[0].0 .0 == bases[2].0 .0 && bases[0].0 .0 != 0, "repeated base");
+    vcover!(bases[1].0 .0 == 0 && bases[0].0 .0 != 0, "an identity base");
+    msm_serial_is_sum::<Dlog<F163>, 3>(bases)
+}
+
+/// N independent formal points (free module of rank N over the scalar field S)
+fn msm_serial_generic_points<S: ToyScalar, const N: usize>() {
+    let mut bases = [GA::new(Lin::<S, N>::id()); N];
+    let mut i = 0;
+    while i < N {
+        bases[i] = GA::new(Lin::<S, N>::generator(i));
+        i += 1;
+    }
+    msm_serial_is_sum::<Lin<S, N>, N>(bases)
+}
+macro_rules! msm_generic_harness {
+    ($($name:ident = ($S:ty, $n:expr, $unwind:expr)),*) => {$(
+        #[cfg_attr(kani, kani::proof)]
+        #[cfg_attr(kani, kani::unwind($unwind))]
+        pub fn $name() {
+            msm_serial_generic_points::<$S, $n>()
+        }
+    )*};
+}
+// unwind = largest window count + 2: 8b/c + 1 windows, c = 1 for n < 4, c = 3 for n = 4
+msm_generic_harness!(
+    msm_serial_lin_q163_n1 = (F163, 1, 11), msm_serial_lin_q163_n2 = (F163, 2, 11), msm_serial_lin_q163_n3 = (F163, 3, 11),
+    msm_serial_lin_q163_n4 = (F163, 4, 11),
+    msm_serial_lin_q65521_n1 = (F65521, 1, 19), msm_serial_lin_q65521_n2 = (F65521, 2, 19), msm_serial_lin_q65521_n3 = (F65521, 3, 19),
+    msm_serial_lin_q65521_n4 = (F65521, 4, 19),
+    msm_serial_lin_q16777213_n1 = (F16777213, 1, 27), msm_serial_lin_q16777213_n2 = (F16777213, 2, 27),
+    msm_serial_lin_q16777213_n3 = (F16777213, 3, 27), msm_serial_lin_q16777213_n4 = (F16777213, 4, 27)
+);
+
+/// Level 2 of the native replay (never compiled for Kani): the same situation on the REAL BLS12-381 G1 through the public
+/// entry points `msm_best`, `msm_parallel`, `msm_serial`.
+#[cfg(not(kani))]
+pub mod level2 {
+    use ff::Field;
+    use group::{Curve, Group};
+    use midnight_curves::msm::{msm_best, msm_parallel, msm_serial};
+    use midnight_curves::{Fq, G1Affine, G1Projective};
+
+    /// false when the blst symbols are interposed by the scripted oracles of the `replay` binary (use `replay_real`)
+    fn blst_is_real() -> bool {
+        std::panic::catch_unwind(|| {
+            let g = G1Projective::generator();
+            let three = g + g + g;
+            !bool::from(g.is_identity()) && g.double() + g == three && three == g * Fq::from(3u64) && three != g.double()
+        })
+        .unwrap_or(false)
+    }
+
+    fn bases(n: usize) -> Vec<G1Affine> {
+        (0..n).map(|i| (G1Projective::generator() * Fq::from(7 + 5 * i as u64)).to_affine()).collect()
+    }
+
+    /// every entry point against sum_i s_i * B_i (group operations of G1Projective); returns the names that differ
+    pub fn wrong_entry_points(scalars: &[Fq], bases: &[G1Affine]) -> Vec<&'static str> {
+        let want = scalars.iter().zip(bases).fold(G1Projective::identity(), |a, (s, b)| a + G1Projective::from(*b) * *s);
+        let mut wrong = Vec::new();
+        if msm_best(scalars, bases) != want {
+            wrong.push("msm_best");
+        }
+        if msm_parallel(scalars, bases) != want {
+            wrong.push("msm_parallel");
+        }
+        let mut acc = G1Projective::identity();
+        msm_serial(scalars, bases, &mut acc);
+        if acc != want {
+            wrong.push("msm_serial");
+        }
+        wrong
+    }
+
+    /// the solver's scalars (as integers) on the real curve; informational line in the replay output
+    pub fn same_scalars_on_g1(ks: &[u32], toy_ok: bool) {
+        if !blst_is_real() {
+            println!("level 2 skipped: blst is interposed in this binary (run replay_real)");
+            return;
+        }
+        let s: Vec<Fq> = ks.iter().map(|k| Fq::from(*k as u64)).collect();
+        let w = wrong_entry_points(&s, &bases(ks.len()));
+        println!("level 1 (real generic msm_serial at the toy group, scalars {ks:?}): {}", if toy_ok { "equals the sum" } else { "DIFFERS from the sum" });
+        println!("level 2 (real BLS12-381 G1, same scalars, bases (7+5i)G): {}", if w.is_empty() { "all entry points equal the sum".to_string() } else { format!("WRONG: {w:?}") });
+    }
+
+    /// `replay_real --scenario msm-short-scalars`: fixed short-scalar cases on the real G1; rc 1 iff some entry point is wrong
+    pub fn scenario_short_scalars() -> i32 {
+        if !blst_is_real() {
+            println!("blst is interposed in this binary: run replay_real");
+            return 4;
+        }
+        let pow2 = |e: u32| Fq::from(2u64).pow([e as u64]);
+        let cases: Vec<(&str, Vec<Fq>)> = vec![
+            ("[200]", vec![Fq::from(200)]),
+            ("[128]", vec![Fq::from(128)]),
+            ("[127] (top bit clear)", vec![Fq::from(127)]),
+            ("[0x8001]", vec![Fq::from(0x8001)]),
+            ("[200, 3]", vec![Fq::from(200), Fq::from(3)]),
+            ("[1, 128, 255]", vec![Fq::from(1), Fq::from(128), Fq::from(255)]),
+            ("[0, 0, 0]", vec![Fq::ZERO; 3]),
+            ("[2^127 + 5, 9] (16 bytes, c = 1)", vec![pow2(127) + Fq::from(5), Fq::from(9)]),
+            ("[0x800000, 1, 2, 3] (3 bytes, c = 3)", vec![Fq::from(0x80_0000), Fq::from(1), Fq::from(2), Fq::from(3)]),
+            ("[2^119 + 1, 0xffffff, 7, 0, 5] (15 bytes, c = 3)", vec![pow2(119) + Fq::ONE, Fq::from(0xff_ffff), Fq::from(7), Fq::ZERO, Fq::from(5)]),
+            ("[-1, 200] (full width)", vec![-Fq::ONE, Fq::from(200)]),
+            ("40 x 2^23 + i (3 bytes, c = ceil(ln 40) = 4)", (0..40).map(|i| Fq::from(0x80_0000 + i)).collect()),
+        ];
+        let mut bad = 0;
+        for (name, s) in &cases {
+            let w = wrong_entry_points(s, &bases(s.len()));
+            println!("{name}: {}", if w.is_empty() { "ok".to_string() } else { format!("WRONG {w:?}") });
+            bad += !w.is_empty() as i32;
+        }
+        println!("{bad} of {} cases wrong", cases.len());
+        (bad > 0) as i32
+    }
+}
